@@ -1,6 +1,341 @@
-//! C10: not implemented yet.
+//! C10: untrusted input never crashes, hangs or exhausts memory.
+//! Every case is timed and its heap use is counted (a counting global allocator that is switched on only
+//! while a C10 case runs; for every other property it costs one relaxed load per allocation).
+//! ops (input bytes: `path` | `fixture` | `data` hex):
+//!   {op:"jumbf"}                     BoxReader::read_super_box on a Cursor (helper thread, 3 s: a non-terminating parse is "hang")
+//!   {op:"png"}                       png_io::get_png_chunk_positions + read_cai("png")
+//!   {op:"bmff"}                      BMFFArena::from_stream (read_ftyp_box + build_bmff_tree)
+//!   {op:"read", hint}                Reader::from_context(test settings).with_stream(hint, bytes)
+//!   {op:"ingredient", hint}          Builder::add_ingredient_from_stream
+//!   {op:"archive"}                   Builder::with_archive
+//!   {op:"store"}                     Store::from_jumbf
+//!   {op:"cai", hint}                 jumbf_io::load_jumbf_from_memory(hint, bytes)  (the handler named by the hint, no sniffing)
+//!   {op:"sign", fmt, out, settings?} sign the input with a minimal manifest and write the asset to `out`
+//!   {op:"extract", hint, out}        write the manifest store of the input to `out`
+//! every result carries ms (wall), cpu_ms (process cpu), peak (bytes of heap above the level at case start,
+//! the copy of the input included), maxreq (largest single allocation request)
+use std::alloc::{GlobalAlloc, Layout, System};
+use std::io::Cursor;
+use std::sync::atomic::{AtomicBool, AtomicIsize, AtomicUsize, Ordering::Relaxed};
+use std::sync::mpsc;
+use std::time::{Duration, Instant};
+
+use c2pa::verif_hooks::c10::*;
+use c2pa::{Builder, Reader};
 use serde_json::{json, Value};
 
-pub fn run(_case: &Value) -> Value {
-    json!({"r": "unimplemented"})
+use crate::{e2e, util::*};
+
+// ---------------------------------------------------------------- counting allocator
+
+pub struct Counting;
+static ON: AtomicBool = AtomicBool::new(false);
+static CUR: AtomicIsize = AtomicIsize::new(0);
+static PEAK: AtomicIsize = AtomicIsize::new(0);
+static MAXREQ: AtomicUsize = AtomicUsize::new(0);
+
+#[inline]
+fn grow(n: usize) {
+    let c = CUR.fetch_add(n as isize, Relaxed) + n as isize;
+    PEAK.fetch_max(c, Relaxed);
+    MAXREQ.fetch_max(n, Relaxed);
+}
+
+unsafe impl GlobalAlloc for Counting {
+    unsafe fn alloc(&self, l: Layout) -> *mut u8 {
+        if ON.load(Relaxed) {
+            // count the request before it is served: a refused (null) request is still a request
+            grow(l.size());
+            let p = System.alloc(l);
+            if p.is_null() {
+                CUR.fetch_sub(l.size() as isize, Relaxed);
+            }
+            p
+        } else {
+            System.alloc(l)
+        }
+    }
+
+    unsafe fn alloc_zeroed(&self, l: Layout) -> *mut u8 {
+        if ON.load(Relaxed) {
+            grow(l.size());
+            let p = System.alloc_zeroed(l);
+            if p.is_null() {
+                CUR.fetch_sub(l.size() as isize, Relaxed);
+            }
+            p
+        } else {
+            System.alloc_zeroed(l)
+        }
+    }
+
+    unsafe fn dealloc(&self, p: *mut u8, l: Layout) {
+        if ON.load(Relaxed) {
+            CUR.fetch_sub(l.size() as isize, Relaxed);
+        }
+        System.dealloc(p, l)
+    }
+
+    unsafe fn realloc(&self, p: *mut u8, l: Layout, new_size: usize) -> *mut u8 {
+        if ON.load(Relaxed) {
+            if new_size > l.size() {
+                grow(new_size - l.size());
+                MAXREQ.fetch_max(new_size, Relaxed);
+            } else {
+                CUR.fetch_sub((l.size() - new_size) as isize, Relaxed);
+            }
+            let q = System.realloc(p, l, new_size);
+            if q.is_null() {
+                CUR.fetch_add(l.size() as isize - new_size as isize, Relaxed);
+            }
+            q
+        } else {
+            System.realloc(p, l, new_size)
+        }
+    }
+}
+
+#[global_allocator]
+static GLOBAL: Counting = Counting;
+
+fn cpu_ms() -> u64 {
+    // utime + stime of the whole process, in clock ticks (100 Hz on Linux)
+    let s = std::fs::read_to_string("/proc/self/stat").unwrap_or_default();
+    let after = s.rsplit(')').next().unwrap_or("");
+    let f: Vec<&str> = after.split_whitespace().collect();
+    // after the ')' the fields start at index 0 = state; utime = field 14 overall = index 11 here
+    let ut: u64 = f.get(11).and_then(|x| x.parse().ok()).unwrap_or(0);
+    let st: u64 = f.get(12).and_then(|x| x.parse().ok()).unwrap_or(0);
+    (ut + st) * 10
+}
+
+// ---------------------------------------------------------------- helpers
+
+fn load(case: &Value) -> Vec<u8> {
+    if let Some(p) = case["path"].as_str() {
+        std::fs::read(p).unwrap_or_else(|e| panic!("read {p}: {e}"))
+    } else if let Some(f) = case["fixture"].as_str() {
+        e2e::fixture(f)
+    } else {
+        hexd(&case["data"])
+    }
+}
+
+fn perr(e: &JumbfParseError) -> String {
+    let d = format!("{:?}", e);
+    let end = d.find(|c: char| !(c.is_alphanumeric() || c == '_')).unwrap_or(d.len());
+    d[..end].to_string()
+}
+
+fn err_json(e: &c2pa::Error) -> Value {
+    let mut d = format!("{e}");
+    d.truncate(160);
+    json!({"r": "err", "kind": err_class(e), "detail": d})
+}
+
+/// (number of boxes in the tree, super boxes included; bytes retained in content-box buffers)
+fn count(sb: &JUMBFSuperBox) -> (u64, u64) {
+    let mut boxes = 1u64;
+    let mut payload = 0u64;
+    for i in 0..sb.data_box_count() {
+        let b = sb.data_box(i).expect("child");
+        let a = b.as_any();
+        if let Some(s) = a.downcast_ref::<JUMBFSuperBox>() {
+            let (n, p) = count(s);
+            boxes += n;
+            payload += p;
+            continue;
+        }
+        boxes += 1;
+        payload += if let Some(x) = a.downcast_ref::<JUMBFJSONContentBox>() {
+            x.json().len()
+        } else if let Some(x) = a.downcast_ref::<JUMBFCBORContentBox>() {
+            x.cbor().len()
+        } else if let Some(x) = a.downcast_ref::<JUMBFPaddingContentBox>() {
+            x.verif_raw().len()
+        } else if let Some(x) = a.downcast_ref::<JUMBFCodestreamContentBox>() {
+            x.data().len()
+        } else if let Some(x) = a.downcast_ref::<JUMBFBrotliContentBox>() {
+            x.data().len()
+        } else if let Some(x) = a.downcast_ref::<JUMBFUUIDContentBox>() {
+            x.data().len()
+        } else if let Some(x) = a.downcast_ref::<JUMBFEmbeddedFileDescriptionBox>() {
+            let (_, mt, f) = x.verif_raw();
+            mt.len() + f.map(|v| v.len()).unwrap_or(0)
+        } else if let Some(x) = a.downcast_ref::<JUMBFEmbeddedFileContentBox>() {
+            x.data().len()
+        } else {
+            0
+        } as u64;
+    }
+    (boxes, payload)
+}
+
+fn op_jumbf(data: Vec<u8>) -> Value {
+    let (tx, rx) = mpsc::channel();
+    std::thread::Builder::new()
+        .stack_size(64 << 20)
+        .spawn(move || {
+            let r = std::panic::catch_unwind(|| {
+                let mut cur = Cursor::new(&data[..]);
+                match BoxReader::read_super_box(&mut cur) {
+                    Ok(sb) => {
+                        let (boxes, payload) = count(&sb);
+                        json!({"r": "ok", "pos": cur.position(), "boxes": boxes, "payload": payload})
+                    }
+                    Err(e) => json!({"r": "err", "kind": perr(&e)}),
+                }
+            });
+            let _ = tx.send(match r {
+                Ok(v) => v,
+                Err(e) => {
+                    let msg = e
+                        .downcast_ref::<String>()
+                        .cloned()
+                        .or_else(|| e.downcast_ref::<&str>().map(|s| s.to_string()))
+                        .unwrap_or_default();
+                    json!({"r": "panic", "msg": msg})
+                }
+            });
+        })
+        .expect("spawn");
+    match rx.recv_timeout(Duration::from_secs(3)) {
+        Ok(v) => v,
+        Err(_) => json!({"r": "hang"}),
+    }
+}
+
+fn op_png(data: &[u8]) -> Value {
+    match verif_png_chunk_positions(data) {
+        Ok(ps) => {
+            let mut out = json!({"r": "ok", "chunks": ps.len(),
+                                 "end": ps.last().map(|p| p.0 + p.1 as u64 + 12).unwrap_or(8)});
+            match verif_read_cai("png", data) {
+                Ok(v) => out["cai"] = json!(v.len()),
+                Err(e) => out["cai_err"] = json!(err_class(&e)),
+            }
+            out
+        }
+        Err(e) => err_json(&e),
+    }
+}
+
+fn op_bmff(data: &[u8]) -> Value {
+    match verif_bmff_tree(data) {
+        Ok(nodes) => {
+            let n = nodes.len();
+            let shown: Vec<Value> = nodes.iter().take(64).map(|(o, s)| json!([o, s])).collect();
+            json!({"r": "ok", "nodes": n, "list": shown})
+        }
+        Err(e) => err_json(&e),
+    }
+}
+
+fn dispatch(case: &Value) -> Value {
+    let op = case["op"].as_str().unwrap_or("read");
+    let hint = case["hint"].as_str().unwrap_or("");
+    match op {
+        "jumbf" => op_jumbf(load(case)),
+        "png" => op_png(&load(case)),
+        "bmff" => op_bmff(&load(case)),
+        "read" => {
+            let bytes = load(case);
+            match Reader::from_context(e2e::context(None)).with_stream(hint, Cursor::new(bytes)) {
+                Ok(r) => {
+                    // rendering the report is part of "reading"
+                    let j = r.json();
+                    json!({"r": "ok", "state": format!("{:?}", r.validation_state()), "json_len": j.len()})
+                }
+                Err(e) => err_json(&e),
+            }
+        }
+        "ingredient" => {
+            let bytes = load(case);
+            let mut b = match Builder::from_context(e2e::context(None)).with_definition(e2e::minimal_manifest("c10")) {
+                Ok(b) => b,
+                Err(e) => return json!({"r": "setup-failed", "detail": format!("{e}")}),
+            };
+            let mut s = Cursor::new(bytes);
+            let r = b.add_ingredient_from_stream(json!({"title": "ing", "relationship": "componentOf"}).to_string(), hint, &mut s);
+            match r {
+                Ok(_) => json!({"r": "ok"}),
+                Err(e) => err_json(&e),
+            }
+        }
+        "archive" => {
+            let bytes = load(case);
+            match Builder::from_context(e2e::context(None)).with_archive(Cursor::new(bytes)) {
+                Ok(_) => json!({"r": "ok"}),
+                Err(e) => err_json(&e),
+            }
+        }
+        "store" => match verif_store_from_jumbf(&load(case)) {
+            Ok(n) => json!({"r": "ok", "claims": n}),
+            Err(e) => err_json(&e),
+        },
+        "cai" => match c2pa::jumbf_io::load_jumbf_from_memory(hint, &load(case)) {
+            Ok(v) => json!({"r": "ok", "len": v.len()}),
+            Err(e) => err_json(&e),
+        },
+        "sign" => {
+            let src = load(case);
+            let fmt = case["fmt"].as_str().expect("fmt");
+            let signer = e2e::signer("ed25519");
+            let settings = case["settings"].as_str();
+            match e2e::sign(e2e::context(settings), &e2e::minimal_manifest("c10"), fmt, &src, signer.as_ref()) {
+                Ok(out) => {
+                    std::fs::write(case["out"].as_str().expect("out"), &out).expect("write");
+                    json!({"r": "ok", "len": out.len()})
+                }
+                Err(e) => err_json(&e),
+            }
+        }
+        "extract" => match c2pa::jumbf_io::load_jumbf_from_memory(hint, &load(case)) {
+            Ok(v) => {
+                std::fs::write(case["out"].as_str().expect("out"), &v).expect("write");
+                json!({"r": "ok", "len": v.len()})
+            }
+            Err(e) => err_json(&e),
+        },
+        other => json!({"r": "bad-op", "op": other}),
+    }
+}
+
+pub fn run(case: &Value) -> Value {
+    let t0 = Instant::now();
+    let c0 = cpu_ms();
+    let base = CUR.load(Relaxed);
+    PEAK.store(base, Relaxed);
+    MAXREQ.store(0, Relaxed);
+    ON.store(true, Relaxed);
+    let res = std::panic::catch_unwind(std::panic::AssertUnwindSafe(|| dispatch(case)));
+    ON.store(false, Relaxed);
+    let peak = (PEAK.load(Relaxed) - base).max(0) as u64;
+    let maxreq = MAXREQ.load(Relaxed) as u64;
+    let mut v = match res {
+        Ok(v) => v,
+        Err(e) => {
+            let msg = e
+                .downcast_ref::<String>()
+                .cloned()
+                .or_else(|| e.downcast_ref::<&str>().map(|s| s.to_string()))
+                .unwrap_or_else(|| "panic".to_string());
+            json!({"r": "panic", "msg": msg})
+        }
+    };
+    v["ms"] = json!(t0.elapsed().as_millis() as u64);
+    v["cpu_ms"] = json!(cpu_ms().saturating_sub(c0));
+    v["peak"] = json!(peak);
+    v["maxreq"] = json!(maxreq);
+    // main.rs buffers stdout until exit: a later case that kills the process would take this answer with it,
+    // so it is also appended (unbuffered) to the side file named by C10_OUT
+    if let Ok(p) = std::env::var("C10_OUT") {
+        use std::io::Write;
+        if let Ok(mut f) = std::fs::OpenOptions::new().append(true).create(true).open(p) {
+            let mut w = v.clone();
+            w["id"] = case.get("id").cloned().unwrap_or(Value::Null);
+            let _ = writeln!(f, "{}", w);
+        }
+    }
+    v
 }
